@@ -697,6 +697,13 @@ fn stmt_expr_variants(s: &Stmt) -> Vec<Stmt> {
                 }
             }
         }
+        Stmt::AssignLambdaCall(v, func, arg, site) => {
+            out.push(Stmt::Assign(
+                *v,
+                Expr::Call(Box::new(Call { conduit: Conduit::Plain, func: *func, arg: arg.clone(), drop_arg: false, site: *site })),
+            ));
+            out.extend(expr_variants(arg).into_iter().map(|x| Stmt::AssignLambdaCall(*v, *func, x, *site)));
+        }
         Stmt::Throw(ThrowKind::Num(e)) => {
             out.push(Stmt::Throw(ThrowKind::Str(1)));
             out.extend(expr_variants(e).into_iter().map(|x| Stmt::Throw(ThrowKind::Num(x))));
@@ -796,9 +803,17 @@ fn block_variants(b: &Block) -> Vec<Block> {
                     v.stmts[i] = Stmt::Try(Box::new(t2));
                     out.push(v);
                 }
+                if t.tuple_prefix.is_some() {
+                    let mut t2 = (**t).clone();
+                    t2.tuple_prefix = None;
+                    let mut v = b.clone();
+                    v.stmts[i] = Stmt::Try(Box::new(t2));
+                    out.push(v);
+                }
                 if t.result.is_some() {
                     let mut t2 = (**t).clone();
                     t2.result = None;
+                    t2.tuple_prefix = None;
                     let mut v = b.clone();
                     v.stmts[i] = Stmt::Try(Box::new(t2));
                     out.push(v);
@@ -873,6 +888,7 @@ fn calls_func(b: &Block, func: usize) -> bool {
             | Stmt::Print(e)
             | Stmt::Return(e)
             | Stmt::Expr(e) => in_expr(e, func),
+            Stmt::AssignLambdaCall(_, f2, e, _) => *f2 == func || in_expr(e, func),
             Stmt::AssignList(es) => es.iter().any(|e| in_expr(e, func)),
             Stmt::AssignStr(ps) => ps.iter().any(|p| matches!(p, StrPart::Int(e) if in_expr(e, func))),
             Stmt::Throw(ThrowKind::Typed(_, e)) | Stmt::Throw(ThrowKind::Num(e)) => in_expr(e, func),
